@@ -52,6 +52,8 @@ func instrDominates(a, b ssa.Instruction) bool {
 // ---------------------------------------------------------------------------
 // value look-through
 
+var fieldLook int
+
 // strip removes representation-only wrappers.
 func strip(v ssa.Value) ssa.Value {
 	for i := 0; i < 12; i++ {
@@ -96,9 +98,44 @@ func strip(v ssa.Value) ssa.Value {
 			// load of a spilled parameter (address-taken struct parameter that is never written)
 			if p := spilledParam(x); p != nil {
 				v = p
+			} else if po, pf := paramObjectField(x); po != nil && noParamLook == 0 && fieldLook <= 2 {
+				// field of a parameter object (spilled to a local cell) of a transparent helper
+				c := helperCall(po.Parent())
+				idx := paramIndex(po)
+				if c == nil || idx < 0 || idx >= len(c.Call.Args) {
+					return v
+				}
+				fieldLook++
+				fv := structFieldValue(c.Call.Args[idx], pf, 0)
+				fieldLook--
+				if fv == nil {
+					return v
+				}
+				v = fv
 			} else {
 				return v
 			}
+		case *ssa.Field:
+			// field of a struct value that is a parameter object of a transparent helper, built by a
+			// composite literal at the call site: the value given to that field
+			if noParamLook > 0 || fieldLook > 2 {
+				return v
+			}
+			st, ok := x.X.Type().Underlying().(*types.Struct)
+			if !ok || x.Field >= st.NumFields() {
+				return v
+			}
+			fieldLook++
+			base := strip(x.X)
+			var fv ssa.Value
+			if base != x.X {
+				fv = structFieldValue(base, st.Field(x.Field), 0)
+			}
+			fieldLook--
+			if fv == nil {
+				return v
+			}
+			v = fv
 		case *ssa.Parameter:
 			// parameter of a transparent helper: the argument at its only call site (inline.go)
 			if noParamLook > 0 {
@@ -156,11 +193,55 @@ func spilledParam(ld *ssa.UnOp) *ssa.Parameter {
 				}
 			}
 		case *ssa.DebugRef:
+		case *ssa.MakeClosure:
+			// captured by a literal that only reads it (a receiver or parameter used inside a func literal
+			// lives in a cell although nobody ever assigns it again)
+			fn, _ := x.Fn.(*ssa.Function)
+			if fn == nil || !cellOnlyReadBy(fn, x, a, 0) {
+				return nil
+			}
 		default:
 			return nil
 		}
 	}
 	return param
+}
+
+// cellOnlyReadBy: the literal fn, created by mc with cell among its bindings, only loads from the
+// corresponding free variable (or hands it on to nested literals that only load from it).
+func cellOnlyReadBy(fn *ssa.Function, mc *ssa.MakeClosure, cell ssa.Value, depth int) bool {
+	if depth > 3 {
+		return false
+	}
+	for i, b := range mc.Bindings {
+		if b != cell {
+			continue
+		}
+		if i >= len(fn.FreeVars) {
+			return false
+		}
+		fv := fn.FreeVars[i]
+		if fv.Referrers() == nil {
+			continue
+		}
+		for _, q := range *fv.Referrers() {
+			switch y := q.(type) {
+			case *ssa.UnOp:
+				if y.Op != token.MUL {
+					return false
+				}
+			case *ssa.DebugRef:
+			case *ssa.MakeClosure:
+				g, _ := y.Fn.(*ssa.Function)
+				if g == nil || !cellOnlyReadBy(g, y, fv, depth+1) {
+					return false
+				}
+			default:
+				return false
+			}
+		}
+	}
+	return true
 }
 
 func intWidth(t types.Type) int {
@@ -657,6 +738,10 @@ func renderDepth(v ssa.Value, d int) string {
 				}
 				return canonType(a.Type().Underlying().(*types.Pointer).Elem())
 			}
+			if fv, ok := x.X.(*ssa.FreeVar); ok && renderCanon > 0 {
+				// a variable captured by reference: the variable, by its type (as for a local cell)
+				return canonType(fv.Type().Underlying().(*types.Pointer).Elem())
+			}
 			if a, ok := x.X.(*ssa.Alloc); ok && a.Comment != "" {
 				return a.Comment
 			}
@@ -921,8 +1006,9 @@ func matchLin(f Fact, terms map[string]int64, k int64, ops ...token.Token) bool 
 // misc
 
 func namedOf(t types.Type) *types.Named {
+	t = types.Unalias(t)
 	if p, ok := t.(*types.Pointer); ok {
-		t = p.Elem()
+		t = types.Unalias(p.Elem())
 	}
 	n, _ := t.(*types.Named)
 	return n
